@@ -1,7 +1,7 @@
 /-
 Property C15 — statement splitting agrees with the lexer and loses nothing.
 -/
-import PqlModel.Lemmas.LexBasic
+import PqlModel.Lemmas.LexPieces
 namespace Pql.C15
 open Pql
 
@@ -20,7 +20,137 @@ theorem C15_count (src : Bytes) :
     (splitStatements src).length = ((scan src).filter (·.kind = .semi)).length + 1 :=
   splitAtSemis_length src (scan src) 0
 
+/-- join with ';' (byte 59) -/
+def intercalateSemi : List Bytes → Bytes
+  | [] => []
+  | [p] => p
+  | p :: q :: ps => p ++ 59 :: intercalateSemi (q :: ps)
+
+theorem intercalateSemi_cons (p : Bytes) {ps : List Bytes} (h : ps ≠ []) :
+    intercalateSemi (p :: ps) = p ++ 59 :: intercalateSemi ps := by
+  cases ps with
+  | nil => exact absurd rfl h
+  | cons q ps => rfl
+
+/-- Under the invariant, joining the pieces cut from `start` on restores `src` from `start` on. -/
+theorem intercalateSemi_splitAtSemis (src : Bytes) (ts : List Token) (lo start : Nat)
+    (h : SemiInv src lo ts) (hs : start ≤ lo) :
+    intercalateSemi (splitAtSemis src ts start) = src.drop start := by
+  induction ts generalizing lo start with
+  | nil => simp [splitAtSemis, intercalateSemi]
+  | cons t ts ih =>
+    obtain ⟨h1, h2, h3, h4⟩ := h
+    simp only [splitAtSemis]
+    split
+    · rename_i hsemi
+      obtain ⟨hstop, hbyte⟩ := h3 hsemi
+      rw [intercalateSemi_cons _ (splitAtSemis_ne_nil _ _ _), ih t.stop t.stop h4 (Nat.le_refl _),
+        hstop, ← hbyte]
+      have : src.drop t.start = (src.drop start).drop (t.start - start) := by
+        rw [List.drop_drop]; congr 1; omega
+      rw [this, List.take_append_drop]
+    · exact ih t.stop start h4 (by omega)
+
+/-- **C15 (join).** For every byte string, joining the pieces of `SplitStatements` with ';'
+    restores the source byte for byte. -/
+theorem C15_join (src : Bytes) : intercalateSemi (splitStatements src) = src := by
+  have := intercalateSemi_splitAtSemis src (scan src) 0 0 (scan_semiInv src) (Nat.le_refl _)
+  simpa [splitStatements] using this
+
+/-- **C15 (locality at a semicolon token).** If scanning `u ++ ";" ++ v` produces the semicolon
+    token at the ';' after `u` (equivalently, `Reaches (u ++ 59 :: v) u.length`: the ';' is
+    not swallowed by a string, quoted name or comment that starts in `u`), then the scan is the
+    scan of `u`, that token, and the scan of `v`; nothing to the left of the ';' depends on
+    what follows it and nothing to the right on what precedes it. -/
+theorem C15_scan_local (u v : Bytes) (off : Nat)
+    (h : (⟨.semi, off + u.length, off + u.length + 1, []⟩ : Token) ∈ scanFrom (u ++ 59 :: v) off) :
+    scanFrom (u ++ 59 :: v) off =
+      scanFrom u off ++ ⟨.semi, off + u.length, off + u.length + 1, []⟩ ::
+        scanFrom v (off + u.length + 1) :=
+  scanFrom_semi_split u v off ((reaches_iff_semi_mem u v off).mpr h)
+
+/-- **C15 (pieces hold no separator).** Scanned on its own, no piece of `SplitStatements`
+    contains a semicolon token: the pieces are exactly the maximal stretches between the
+    semicolon tokens of the whole source. -/
+theorem C15_no_semi_in_piece (src : Bytes) :
+    ∀ p ∈ splitStatements src, ∀ t ∈ scan p, t.kind ≠ .semi := by
+  induction hn : src.length using Nat.strongRecOn generalizing src with
+  | _ n ih =>
+    subst hn
+    rcases splitStatements_cases src with ⟨h1, h2⟩ | ⟨u, v, h1, _, h3, h4⟩
+    · intro p hp
+      rw [h2] at hp
+      simp at hp
+      subst hp
+      exact h1
+    · intro p hp
+      rw [h4] at hp
+      rcases List.mem_cons.mp hp with hp | hp
+      · subst hp; exact h3
+      · exact ih v.length (by subst h1; simp; omega) v rfl p hp
+
+/-- Scan the pieces one after the other, the first at absolute offset `off`, each next one
+    just behind the ';' that follows its predecessor, and put a semicolon token between them. -/
+def rejoinTokens : Nat → List Bytes → List Token
+  | _, [] => []
+  | off, [p] => scanFrom p off
+  | off, p :: q :: ps =>
+    scanFrom p off ++ ⟨.semi, off + p.length, off + p.length + 1, []⟩ ::
+      rejoinTokens (off + p.length + 1) (q :: ps)
+
+theorem rejoinTokens_cons (off : Nat) (p : Bytes) {ps : List Bytes} (h : ps ≠ []) :
+    rejoinTokens off (p :: ps) =
+      scanFrom p off ++ ⟨.semi, off + p.length, off + p.length + 1, []⟩ ::
+        rejoinTokens (off + p.length + 1) ps := by
+  cases ps with
+  | nil => exact absurd rfl h
+  | cons q ps => rfl
+
+theorem scanFrom_eq_rejoinTokens (src : Bytes) (off : Nat) :
+    scanFrom src off = rejoinTokens off (splitStatements src) := by
+  induction hn : src.length using Nat.strongRecOn generalizing src off with
+  | _ n ih =>
+    subst hn
+    rcases splitStatements_cases src with ⟨_, h2⟩ | ⟨u, v, h1, h2, _, h4⟩
+    · rw [h2]; rfl
+    · rw [h4, rejoinTokens_cons _ _ (show splitStatements v ≠ [] from splitAtSemis_ne_nil _ _ _),
+        ← ih v.length (by subst h1; simp; omega) v _ rfl]
+      subst h1
+      exact scanFrom_semi_split u v off h2
+
+/-- **C15 (piece tokens).** The token stream of the whole source is obtained by scanning each
+    piece of `SplitStatements` on its own, at the absolute offset where the piece starts
+    (0 for the first piece, one past the preceding ';' for every other piece), and putting one
+    semicolon token between consecutive pieces.  By `scanFrom_eq_map_scan` the scan of a piece
+    at offset `o` is `scan piece` with all spans moved by `o`; by `C15_no_semi_in_piece` the
+    piece scans hold no semicolon token.  Hence the tokens of the whole source between two
+    consecutive semicolon tokens are exactly the tokens of the piece between them, scanned
+    alone and shifted by the piece's start offset. -/
+theorem C15_piece_tokens (src : Bytes) : scan src = rejoinTokens 0 (splitStatements src) :=
+  scanFrom_eq_rejoinTokens src 0
+
+/-- There is one start offset per piece. -/
+theorem pieceStarts_length (src : Bytes) :
+    (pieceStarts src).length = (splitStatements src).length := by
+  simp [pieceStarts, C15_count]
+
+/-- **C15 (piece tokens, by position).**  Pair every piece `p` of `SplitStatements src` with its
+    start offset `o` (`pieceStarts`: 0 for the first piece, the `stop` of the preceding semicolon
+    token for the others; by `pieceStarts_length` no piece is left out).  Then `p` is the
+    text of `src` from `o` on, `p.length` bytes long, and the tokens of the whole scan whose
+    spans lie inside `[o, o + p.length]` (`tokensWithin`) are exactly the tokens of `p` scanned
+    on its own, with both span ends moved by `o` (`Token.shift`). -/
+theorem C15_piece_tokens_at (src : Bytes) :
+    ∀ po ∈ (splitStatements src).zip (pieceStarts src),
+      (src.drop po.2).take po.1.length = po.1 ∧
+      tokensWithin (scan src) po.2 po.1.length = (scan po.1).map (Token.shift po.2) :=
+  piece_tokens_aux src
+
 -- sanity test (evaluated, not a theorem): a;';';b
 #guard splitStatements [97, 59, 39, 59, 39, 59, 98] = [[97], [39, 59, 39], [98]]
+#guard splitStatements [59, 59] = [[], [], []]
+#guard rejoinTokens 0 (splitStatements [97, 59, 39, 59, 39, 59, 98]) = scan [97, 59, 39, 59, 39, 59, 98]
+#guard pieceStarts [97, 59, 39, 59, 39, 59, 98] = [0, 2, 6]
+#guard intercalateSemi (splitStatements [47, 47, 59, 10, 59, 96, 59]) = [47, 47, 59, 10, 59, 96, 59]
 
 end Pql.C15
